@@ -17,6 +17,7 @@ CONSTANTS
   UseWindow = FALSE
   UseReopen = FALSE
   UseEpochs = FALSE
+  OccSet = {FALSE}
   UseReaders = TRUE
 INVARIANTS CTypeOK C01_Ordered SegsConsistent NoEmptyInnerSegment
 PROPERTIES StepsOK
